@@ -1053,7 +1053,34 @@ fn gen_blobs(seed: u64, n: u64, out: &mut Out) {
         let mut a = Allocator::new();
         let node = json_tree(&mut a, &tree).unwrap();
         let mut blob = node_to_bytes(&a, node).unwrap();
-        let class = match r.below(24) {
+        let class = match r.below(28) {
+            24..=27 => {
+                // the stream ends INSIDE a multi-byte length prefix (size bits so far all zero, or not): cut the valid
+                // serialization at the start of one of its items and put an unfinished prefix there
+                let mut starts = vec![];
+                let mut i = 0usize;
+                while i < blob.len() {
+                    starts.push(i);
+                    let b = blob[i];
+                    if b == 0xff || b < 0x80 {
+                        i += 1;
+                    } else {
+                        let k = b.leading_ones() as usize;
+                        let mut size = (b & (0xffu16 >> k) as u8) as usize;
+                        for x in &blob[i + 1..i + k] {
+                            size = (size << 8) | *x as usize;
+                        }
+                        i += k + size;
+                    }
+                }
+                let at = *r.pick(&starts);
+                blob.truncate(at);
+                let cuts: [&[u8]; 18] = [&[0xc0], &[0xe0], &[0xe0, 0], &[0xf0], &[0xf0, 0], &[0xf0, 0, 0], &[0xf8], &[0xf8, 0, 0],
+                    &[0xf8, 0, 0, 0], &[0xfc], &[0xfc, 0, 0], &[0xfc, 0, 0, 0, 0], &[0xc1], &[0xe0, 1], &[0xf0, 0, 1], &[0xdf],
+                    &[0xe0, 0, 0], &[0xc0, 0]];
+                blob.extend_from_slice(*r.pick(&cuts));
+                "cut-prefix"
+            }
             0..=7 => "valid",
             8 | 9 => {
                 // re-encode the length prefix of the first prefixed atom with a wider prefix class
